@@ -28,7 +28,7 @@ ASSUMPTIONS = [
     "bounded progress: a run still alive 60 s after its last logged event is reported as non-termination; a run killed by the outer watchdog earlier is inconclusive",
     "the explicit-state model clause of the quantifier is NOT decided (different technique); schedule diversity from the grid and delay injection stands in, distinct interleavings are reported",
 ]
-FLOORS = {"quick": {"runs": 40, "delivered": 300, "retirements": 5, "failed_tasks_delivered": 5, "distinct:interleavings": 15, "network_error_tasks": 14, "retirement_waves_held_back": 2, "runs_with_tuple_ids": 3},
+FLOORS = {"quick": {"runs": 40, "delivered": 300, "retirements": 5, "failed_tasks_delivered": 5, "distinct:interleavings": 15, "network_error_tasks": 14, "retirement_waves_held_back": 1, "runs_with_tuple_ids": 2},
           "thorough": {"runs": 500, "delivered": 3000, "retirements": 50, "failed_tasks_delivered": 50, "injected_delays": 500,
                        "distinct:interleavings": 150}}
 NPROC = {"quick": 8, "thorough": 16}
